@@ -37,6 +37,10 @@ OPTS = [
     ("E", ["-E", "errs.log"]), ("gnuerrors", ["-gnuerrors"]), ("LISTRADIX", None), ("P", ["-P"]), ("M", ["-M"]),
     ("h", ["-h"]), ("SPLITBYTE", ["-SPLITBYTE", "."]), ("noicemask", ["-g", "NOICE", "-noicemask", "255"]),
     ("noicemask2", ["-g", "NOICE", "-noicemask", "6"]), ("Lwide", ["-L", "-OLIST", "w.lst"]),
+    # negated forms: a bare +OLIST empties the list of listing names (the documented way to neutralise an -OLIST that
+    # comes from ASCMD or a key file); it has to be followed by another option, else the source name is its argument
+    ("OLISTneg", ["-L", "-OLIST", "n.lst", "+OLIST", "-q"]), ("OLISTneg1", ["-L", "-OLIST", "n1.lst", "+OLIST", "n1.lst", "-q"]),
+    ("Lneg", ["-L", "+L", "-q"]), ("gneg", ["-g", "MAP", "+g", "-q"]), ("uneg", ["-u", "+u", "-C", "+C", "-q"]),
     # the share-format switches -c/-p/-a are not in the property's list of report-only options and are not varied:
     # SHARED evaluates its symbols only when a share file is written, which marks them "used" (visible to IFUSED)
 ]
@@ -235,6 +239,10 @@ def one_run(t, case, toks, d, tag):
     argv = ["asl"] + list(t["flags"]) + (["-q"] if case["quiet"] else []) + ["-i", asl.INCLUDE_DIR]
     env = {"LANG": case["lang"], "LC_ALL": case["lang"]} if case["lang"] != "C" else {}
     place = case["place"]
+    early_out = any(t.startswith("+") for t in toks)
+    if early_out:
+        # negated options act on what was said before them: the output names come first in these runs
+        argv += ["-o", outp, "-shareout", name + ".h"]
     if place == "argv" or not toks:
         argv += toks
     elif place == "ascmd":
@@ -243,7 +251,7 @@ def one_run(t, case, toks, d, tag):
         # key file: option and argument on the same line
         lines, i = [], 0
         while i < len(toks):
-            if i + 1 < len(toks) and not toks[i + 1].startswith("-"):
+            if i + 1 < len(toks) and not toks[i + 1].startswith(("-", "+")):
                 lines.append(toks[i] + " " + toks[i + 1])
                 i += 2
             else:
@@ -254,7 +262,7 @@ def one_run(t, case, toks, d, tag):
             env["ASCMD"] = "@opts.key"
         else:
             argv.append("@opts.key")
-    argv += [srcarg, "-o", outp, "-shareout", name + ".h"]
+    argv += [srcarg] if early_out else [srcarg, "-o", outp, "-shareout", name + ".h"]
     r = run.run(argv, wd, env=env, timeout=90, cpu=60)
     p = run.read(wd, outp)
     reports = {}
